@@ -61,7 +61,11 @@ pub fn ncpu() -> usize {
 /// Spread the work over `n` identical workers and conclude.
 pub fn standard_run(c: &Check, tier: Tier, seed: u64, t0: Instant, plans: Vec<WorkerPlan>, par: usize, min_nontrivial: u64) -> i32 {
     let out = run_workers(&c.spec, tier, seed, plans, par);
-    conclude(&c.spec, tier, seed, out, t0.elapsed().as_secs_f64(), min_nontrivial, serde_json::json!({}))
+    let mut extra = serde_json::json!({});
+    if let Ok(m) = std::env::var("BCVERIF_MIRI_SUMMARY") {
+        extra["miri"] = serde_json::json!(m);
+    }
+    conclude(&c.spec, tier, seed, out, t0.elapsed().as_secs_f64(), min_nontrivial, extra)
 }
 
 pub fn secs(n: u64) -> Duration {
